@@ -3,7 +3,11 @@
 M   : spec/VoteCount.tla (design layer = processVoteMsg / judgeVoteCount / vote / commit over the tallies of votes_mgr.go,
       credential check of sortition_verifier.go as coded) checked exhaustively within small bounds (4 peers + the node, weights
       from a table, 2 blocks, 1-2 indices, 3-4 delivered messages, certificate round on/off, valid and invalid credentials);
-      invariants recompute the quorums from the DELIVERED votes.  The class listed as a known finding is tolerated.
+      invariants recompute the quorums from the DELIVERED votes.  Future-index prevotes/precommits are cached and replayed when
+      the index starts (repaired by commit 1d1ac7a; M_before_fix is the design before it, information only).  What remains at
+      design level only: certificate votes of a future index are not cached, so in a certificate round with two indices an
+      equivocating certificate voter whose first vote came early still counts (class equivocator_future_vote, tolerated in
+      M_cert_twoindices only; a certificate round cannot be reached on the engine fixture).
 G2  : `tlc -simulate` behaviours over three alphabets (one block / two blocks / two indices with invalid credentials).
 T   : the driver `votecount` feeds every behaviour to the real ucon engine (real chain, real Server assembled without timers,
       real BLS/VRF/ECDSA-signed vote messages through Server.HandleMsg, real Server.commit -> PackVotes -> VerifySeal);
@@ -22,7 +26,8 @@ CONSTANTS
   MaxMsgs = %(MaxMsgs)d
   CertRound = %(Cert)s
   Creds = %(Creds)s
-  Known = {"equivocator_future_vote"}
+  Known = %(Known)s
+  Replay = %(Replay)s
   Mode = "%(Mode)s"
   MaxOps = %(MaxOps)d
 %(tail)s
@@ -32,10 +37,12 @@ INVS = ("INVARIANT PrecommitOnlyAfterPrevoteQuorum\nINVARIANT CertOnlyAfterPreco
         "INVARIANT EquivocatorWeightless\nINVARIANT CommitVerifies\nVIEW View")
 OK, BOTH = '{"ok"}', '{"ok", "bad"}'
 AB = '{"A", "B"}'
+REPLAY = '{"Prevote", "Precommit"}'      # since commit 1d1ac7a the handler replays cached prevotes and precommits of a future index
+FUTURE_CERT = '{"equivocator_future_vote"}'  # remains at design level: certificate votes of a future index are not cached at all
 
 
 def cfg(mode, **kw):
-    d = dict(WSel="c", Blocks=AB, MaxI=1, MaxMsgs=4, Cert="FALSE", Creds=OK, Mode=mode, MaxOps=0)
+    d = dict(WSel="c", Blocks=AB, MaxI=1, MaxMsgs=4, Cert="FALSE", Creds=OK, Mode=mode, MaxOps=0, Known="{}", Replay=REPLAY)
     d.update(kw)
     if mode == "M":
         d["head"], d["tail"] = "SPECIFICATION Spec", INVS
@@ -69,9 +76,11 @@ def generate(ctx):
     nw = len(behs)
     runs = [("M_oneindex", dict()), ("M_cert", dict(Cert="TRUE"))]
     if quick:
-        runs += [("M_twoindices", dict(MaxI=2, MaxMsgs=3)), ("M_badcred", dict(MaxI=2, MaxMsgs=2, Creds=BOTH))]
+        runs += [("M_twoindices", dict(MaxI=2, MaxMsgs=3)), ("M_badcred", dict(MaxI=2, MaxMsgs=2, Creds=BOTH)),
+                 ("M_cert_twoindices", dict(Cert="TRUE", MaxI=2, MaxMsgs=2, Known=FUTURE_CERT))]
     else:
         runs += [("M_twoindices_badcred", dict(MaxI=2, MaxMsgs=3, Creds=BOTH)),
+                 ("M_cert_twoindices", dict(Cert="TRUE", MaxI=2, MaxMsgs=3, Known=FUTURE_CERT)),
                  ("M_table_b", dict(WSel="b", MaxMsgs=4)), ("M_cert_5msgs", dict(Cert="TRUE", MaxMsgs=5, Blocks='{"A"}'))]
     ok = True
     zero = set()
@@ -89,6 +98,14 @@ def generate(ctx):
     ctx.cov["exhaustive"] = ok
     if zero:
         ctx.cov["coverage_zero_actions"] = sorted(zero)
+    # the design as it was before commit 1d1ac7a (no replay of cached prevotes/precommits), invariants as stated: the
+    # design-level argument for the fix.  Its counterexamples are replayed on the real code (they must pass now); the
+    # run itself decides nothing.
+    mb = ctx.tlc("VoteCount", cfg("M", MaxI=2, MaxMsgs=3, Replay="{}"), name="M_before_fix", timeout=1500, count=False)
+    ctx.cov["design_violation_before_fix"] = mb.violated
+    for v in mb.printed:
+        if isinstance(v, dict) and v.get("kind") == "CEX" and not v["h"][0].get("cert"):
+            behs.append(v["h"])
     nc = len(behs)
     # G: simulated behaviours over the fixture's weight table (2,3,4,5,6 ; T=20 ; quorum 13), three alphabets
     rnd = random.Random(ctx.seed)
